@@ -123,7 +123,9 @@ impl Zero for Element {
     }
 
     fn is_zero(&self) -> bool {
-        self.inner.is_zero()
+        // Both curve points of the identity's coset, (0, 1) and (0, -1),
+        // represent the identity element.
+        self.is_identity()
     }
 }
 
